@@ -14,6 +14,14 @@ Theorem hand_modelled_sources_unchanged_C18 : PinsC18.pins = [
   ("src/pendulum/duration.py::Duration.in_words"%string, "bdc3ca124e6809141127"%string);
   ("src/pendulum/interval.py::Interval.in_words"%string, "82134f1a76ae604cfb24"%string);
   ("src/pendulum/helpers.py::format_diff"%string, "99cbdf1743d6abaed847"%string);
-  ("src/pendulum/datetime.py::DateTime.diff_for_humans"%string, "9f81883a03ddbc53761d"%string)].
+  ("src/pendulum/datetime.py::DateTime.diff_for_humans"%string, "9f81883a03ddbc53761d"%string);
+  ("src/pendulum/helpers.py::set_locale"%string, "f96c887ca5cc88a1a520"%string);
+  ("src/pendulum/helpers.py::get_locale"%string, "e7cabbebe139c3268080"%string);
+  ("src/pendulum/helpers.py::locale"%string, "6385b1f96e1a9f2353db"%string);
+  ("src/pendulum/locales/locale.py::Locale.load"%string, "22b6cd98a552cebc3862"%string);
+  ("src/pendulum/locales/locale.py::Locale.normalize_locale"%string, "db76aaecc1aad857fb40"%string);
+  ("src/pendulum/interval.py::Interval.__new__"%string, "87853506c4af18f659e8"%string);
+  ("src/pendulum/interval.py::Interval.__init__"%string, "643448d9b6917a3f0edc"%string);
+  ("src/pendulum/datetime.py::DateTime.diff"%string, "a731b945966b4b276cbc"%string)].
 Proof. exact eq_refl. Qed.
 Print Assumptions hand_modelled_sources_unchanged_C18.
